@@ -473,7 +473,8 @@ func (s ttxStream) render() ([]byte, []ttxExpCue) {
 		}
 	}
 	send := func(pid uint16, pts int64, units ...[]byte) {
-		d := []byte{0x10}
+		// data identifier: any of the EBU values 0x10..0x1f, a function of the packet's presentation time
+		d := []byte{0x10 | byte(uint64(pts)*0x9E3779B97F4A7C15>>60)}
 		for _, u := range units {
 			d = append(d, u...)
 		}
